@@ -156,3 +156,14 @@ Theorem C09_v2_activation_clears_countdown : forall c layer c',
   process_presses c layer = Ok c' -> (length (cv_active c) < length (cv_active c'))%nat -> cv_until_change c' = 0.
 Proof. exact activation_clears_countdown. Qed.
 Print Assumptions C09_v2_activation_clears_countdown.
+
+(* defchordsv2, "released per the configured release rule": a chord whose status has become Released leaves the active list in the
+   same tick and its release event reaches the layout, in list order; no Released chord is ever left behind, no other chord is
+   removed *)
+Theorem C09_v2_released_chords_are_cleared : forall c layer c' dq',
+  tick_chv2 c layer = Ok (c', dq') ->
+  Forall (fun a => is_released a = false) (cv_active c') /\
+  exists c1 dq, cv_active c' = filter (fun a => negb (is_released a)) (cv_active c1) /\
+                dq' = dq ++ map release_event (filter is_released (cv_active c1)).
+Proof. exact released_chords_are_cleared. Qed.
+Print Assumptions C09_v2_released_chords_are_cleared.
